@@ -23,8 +23,6 @@ type findingDef struct {
 }
 
 var findingDefs = []findingDef{
-	{"KF-DESTINATION-NEAR-POLE", "geo.DestinationPoint computes the destination latitude with asin, which is ill-conditioned at +-90: starting within about 5 m of a pole and travelling 0..1 m the returned point is 1-2 cm away from where it should be (e.g. lat -89.999999, d = 0 comes back 1.6 cm from the start), beyond the stated max(1 mm, 1e-6 d)",
-		[]string{"C15:destination"}},
 	{"KF-CENTER-OVERFLOW", "Rect.Center() computes (Max+Min)/2, which overflows to +-Inf when |Max+Min| exceeds MaxFloat64 (coordinates around +-1e308); Center() of every kind that derives it from the rectangle is affected, including a Feature wrapping a single point, whose centre should be the position itself",
 		[]string{"C11:center-", "C11:pool-center-"}},
 	{"KF-COLLECTION-VALID-RECT-ONLY", "collection.Valid() (GeometryCollection, FeatureCollection, MultiPoint) looks only at the collection's rectangle, which is built from non-empty children: an out-of-range position carried by an empty child (a constructor-built LineString of one position) is not seen and the collection reports itself valid",
